@@ -54,7 +54,7 @@ MatchC09(e, d) ==
 VARIABLE l
 Init == l = 1 /\ MismatchInit
 Next == /\ l <= Len(Rec)
-        /\ LET e == Rec[l] d == Direct(e) IN
+        /\ LET e == NormSb(Rec[l]) d == Direct(e) IN
              /\ CheckC(MatchC08(e, d), l, "C08")
              /\ CheckC(MatchC02(e), l, "C02")
              /\ CheckC(MatchC04(e, d), l, "C04")
